@@ -735,6 +735,25 @@ def plan_C17(tier, rng):
                 o2 = wf(exp=exp_char(r))
                 cs.write(ep, F["name"], radix_fmt(r), bits, c, wo=True, opts=o2, tag="write-float-radix")
                 cs.write(ep, F["name"], radix_fmt(r), bits, c, wo=True, opts=o2, api="facade")
+    # the facade sizes its buffer from buffer_size_const: options whose longest output is exactly that bound (asymmetric
+    # breaks, min_significant_digits >= 28) on negative values whose exponent sits on the negative break (S-C17-b)
+    for (ng, ps, mn) in ((-20, 9, 50), (-100, 9, 40), (-30, 5, 28), (-300, 9, 300), (-324, 1, 28), (-14, 2, 64), (-45, 9, 30)):
+        o = wf(neg=ng, pos=ps, min=mn)
+        for F in (F64, F32):
+            for mant in ("-1.2345678901234567", "-9.999999999999999", "1.5", "-1"):
+                for dq in (0, 1, -1):
+                    try:
+                        x = float("%se%d" % (mant, ng + dq))
+                    except OverflowError:
+                        continue
+                    if x == 0.0:
+                        continue
+                    i += 1
+                    ep = cs.new_ep()
+                    c = [cfgs[i % len(cfgs)]]
+                    bits = gens.pyfloat_bits(F, x)
+                    cs.write(ep, F["name"], 0, bits, c, wo=True, opts=o, tag="bound-tight-options")
+                    cs.write(ep, F["name"], 0, bits, c, wo=True, opts=o, api="facade")
     # punctuation bytes from the whole byte range: whenever the code calls the options valid, everything written is ASCII
     for b in list(range(0, 256, 5)) + [0x7f, 0x80, 0xb7, 0xff, 0x09, 0x20]:
         ep = cs.new_ep()
